@@ -52,6 +52,11 @@ def site_program(site, op, x, ys):
             if n == 0:
                 body += [("func", "addn", [("int", "n"), ("Signal", "s")], [], B("+", V("s"), V("n")))]
             body += [("decl", "Signal", r, ("call", "addn", [k, V("a")]))]
+        elif site == "func-int-body":
+            # ONE function whose body folds a nested constant expression of its int parameter, called once per y
+            if n == 0:
+                body += [("func", "gb", [("int", "n"), ("Signal", "s")], [], B("+", V("s"), ("paren", B("-", ("paren", B(op, I(x), V("n"))), I(3)))))]
+            body += [("decl", "Signal", r, ("call", "gb", [I(y), V("a")]))]
         elif site == "int-chain":
             body += [("decl", "int", f"j{n}", I(x)), ("decl", "int", f"k{n}", B(op, V(f"j{n}"), I(y))),
                      ("decl", "Signal", r, B("*", V("a"), V(f"k{n}")))]
@@ -72,7 +77,7 @@ def site_program(site, op, x, ys):
 
 
 SITES = ["int-decl", "operand", "operand-left", "typed-literal", "cmp-rhs", "cond-value", "cond-int", "func-arg",
-         "int-chain", "lit-operand", "lit-operand-same-type", "ir-fold"]
+         "int-chain", "lit-operand", "lit-operand-same-type", "ir-fold", "func-int-body"]
 FULL_SITES = ("int-decl", "operand", "ir-fold")
 BATCH = 5
 
@@ -83,7 +88,7 @@ class C11(core.Check):
     timeout = 300
     rule = ("every operator (11 arithmetic/bitwise, 6 comparisons, && ||) x every ordered pair of a 15-value boundary "
             "list (5x5 at the secondary sites; shift counts 0..31, exponents 0..5, INT_MIN/-1 excluded) x every folding "
-            "site (int declaration, operand, typed literal, comparison side, ':' value, function argument, int chain, "
+            "site (int declaration, operand, typed literal, comparison side, ':' value, function argument, nested expression of an int parameter in the body of a function called with several arguments, int chain, "
             "IR-level constant, loop iterator / place coordinate); expected value = Factorio arithmetic (the circuit "
             "model's arith_op, i.e. what the literal-replaced-by-input twin computes), plus the compiled twin itself on "
             "the operand site; one case = one (site, operator, left value) batch of results; non-trivial = results differ")
